@@ -102,7 +102,18 @@ def decorate(rng: random.Random, h: List[List[Any]], kind: str = 'build') -> Dic
         for c, _ in h:
             if rng.random() < 0.08:
                 hid.append([c, -1])
-    return {'kind': kind, 'h': h, 'mod': mod, 'imp': imp, 'gen': gen, 'mem': mem, 'pkg': rng.random() < 0.2, 'hid': hid}
+    # a base written through a local name that is re-bound, after the class statement, to another documented class.
+    # Only where every class involved is already defined/processed at that point (modules in contiguous chunks).
+    reb: List[List[int]] = []
+    if all(mod[i] <= mod[i + 1] for i in range(n - 1)) and rng.random() < 0.5:
+        order = [c for c, _ in h]
+        for i, (c, bs) in enumerate(h):
+            for p, b in enumerate(bs):
+                others = [d for d in order[:i] if d != b]
+                if b < 1000 and b in order[:i] and others and rng.random() < 0.35:
+                    reb.append([c, p, rng.choice(others)])
+    return {'kind': kind, 'h': h, 'mod': mod, 'imp': imp, 'gen': gen, 'mem': mem, 'pkg': rng.random() < 0.2, 'hid': hid,
+            'reb': reb}
 
 
 def hidden_set(case: Any) -> set:
@@ -128,6 +139,7 @@ def random_cyclic(rng: random.Random) -> Dict[str, Any]:
         case['mod'] = [0] * n
     case['mem'] = []
     case['hid'] = []
+    case['reb'] = []
     return case
 
 
@@ -398,6 +410,16 @@ class Check(PropertyCheck):
         out.append({'kind': 'build', 'h': hier5, 'mod': [0, 1, 1, 0, 2], 'imp': [0, 1, 0, 0, 1], 'gen': [[5, 0]], 'mem': mem5,
                     'pkg': True, 'hid': [[2, 0], [3, -1]]})
         self.stats['privacy_corpus'] = len(out)
+        # corpus: the name used as a base is bound again later in the same scope (Python keeps the first binding)
+        # m0: K1(f0 f1)  m1: K2(f0 f2)  m2: `from m0 import K1 as B; class K3(B); from m1 import K2 as B; class K4(K2)`
+        hier4 = [[1, []], [2, []], [3, [1]], [4, [2]]]
+        mem4 = [[1, [[0, 101, 0], [1, 102, 0]]], [2, [[0, 201, 0], [2, 203, 0]]], [3, [[0, None, 0]]], [4, [[0, None, 0]]]]
+        out.append({'kind': 'build', 'h': hier4, 'mod': [0, 1, 2, 2], 'imp': [0] * 4, 'gen': [], 'mem': mem4, 'pkg': True,
+                    'hid': [], 'reb': [[3, 0, 2]]})
+        # same module: `B = K1; class K3(B, K2[T]); B = K2` and a rebinding to a subclass / to an unrelated class
+        out.append({'kind': 'build', 'h': [[1, []], [2, [1]], [3, [1]], [4, [3, 2]]], 'mod': [0] * 4, 'imp': [0] * 4,
+                    'gen': [[4, 1]], 'mem': mem4, 'pkg': False, 'hid': [], 'reb': [[3, 0, 2], [4, 0, 1], [4, 1, 3]]})
+        self.stats['rebinding_corpus'] = 2
         ne = 0
         for n in range(1, self.maxn() + 1):
             for h in hierarchies(n):
@@ -524,6 +546,8 @@ class Check(PropertyCheck):
                 out.append(Violation('oracle', msg, case=c, observed={'impl': o['impl'], 'py': o['py']}))
             # distributions
             self.count('built_%s' % c['kind'])
+            if c.get('reb'):
+                self.count('built_with_rebound_base_names')
             if c.get('hid'):
                 self.count('built_with_hidden_members_or_classes')
                 self.count('hidden_rules', len(c['hid']))
